@@ -109,6 +109,10 @@ class Units:
             if re.search(r"::unwrap_or$|::unwrap_or_else$|::map_or$", n) and len(t["args"]) >= 2:
                 # either the payload or the fallback: an `add` node carries the union of both units (constants add nothing)
                 return ("add", self.expr(b, t["args"][0], depth + 1), self.expr(b, t["args"][1], depth + 1))
+            if re.search(r"::min$|::max$", n) and len(t["args"]) == 2:
+                # either operand: a byte offset clamped by a literal is a byte offset moved to an arbitrary place
+                # (the `add` node gives it the unit SHIFT; two offsets keep their units)
+                return ("add", self.expr(b, t["args"][0], depth + 1), self.expr(b, t["args"][1], depth + 1))
             if re.search(r"::into$|::from$|::try_into$|::unwrap$|::clone$|Try>::branch$|::min$|::max$", n) and t["args"]:
                 return self.expr(b, t["args"][0], depth + 1)
             return ("call", n)
